@@ -237,9 +237,24 @@ func (c *caseRun) checkTable(op string, actor *podRT, before string) {
 		return map[string]interface{}{"op": op, "nat_before_call": before, "nat_after_call": after}
 	}
 	// the strict fake's reject log: a batch galaxy issued during a legitimate operation and the kernel would refuse
-	if rj := c.fake.Rejects(); len(rj) > 0 {
-		c.count("fake_rejects", int64(len(rj)))
+	rj := c.fake.Rejects()
+	if len(rj) > 0 {
 		c.fake.ResetRejects()
+		// a refused single -C/-D of a jump whose target chain does not exist is benign: the rule cannot exist, and since
+		// /repo f28808b CleanPortMapping skips it and goes on to its restore batch; whatever it then leaves behind is
+		// judged by the table comparison below
+		kept := rj[:0:0]
+		for _, r := range rj {
+			if r.Kind == "missing-chain" && (r.Op == "-D" || r.Op == "-C") {
+				c.count("benign_refused_delete_of_jump_to_missing_chain", 1)
+				continue
+			}
+			kept = append(kept, r)
+		}
+		rj = kept
+	}
+	if len(rj) > 0 {
+		c.count("fake_rejects", int64(len(rj)))
 		e := extra()
 		e["rejected"] = rj
 		sig := fmt.Sprintf("%s-batch-rejected-%s", op, rj[0].Kind)
